@@ -308,7 +308,7 @@ def run_history(env, case, fault):
         if n != len(snap.rows):
             problems.append(('len', 'len(cache)=%d but %d rows' % (n, len(snap.rows))))
         with warnings.catch_warnings():
-            warnings.simplefilter('ignore')
+            warnings.simplefilter('always')
             warns = cache.check()
         bad = [str(w.message) for w in warns if 'empty directory' not in str(w.message)]
         if bad and not problems:
@@ -434,7 +434,7 @@ class Concurrent(SubCheck):
             snap = Snapshot(path)
             box['problems'] = snap.problems()
             with warnings.catch_warnings():
-                warnings.simplefilter('ignore')
+                warnings.simplefilter('always')
                 warns = clients[0].check()
             bad = [str(w.message) for w in warns if 'empty directory' not in str(w.message)]
             if bad and not box['problems']:
